@@ -73,19 +73,24 @@ class ScriptedConnection(Connection):
 
     @timeout(CONNECT_TIMEOUT)
     async def _open_connection(self):
-        loop = asyncio.get_running_loop()
-        r = self.script.pop(0) if self.script else self.default
-        self.opens.append((loop.time(), r))
-        self.log.append(("open", loop.time(), r))
-        if r == "err":
-            raise OSError("scripted open failure")
-        if r == "hang":
-            await loop.create_future()
-        reader = asyncio.StreamReader()
-        writer = FakeWriter(len(self.writers), self.log)
-        self.readers.append(reader)
-        self.writers.append(writer)
-        return reader, writer
+        return await scripted_open(self)
+
+
+async def scripted_open(conn):
+    """one scripted open: `conn` carries script / default / opens / readers / writers / log"""
+    loop = asyncio.get_running_loop()
+    r = conn.script.pop(0) if conn.script else conn.default
+    conn.opens.append((loop.time(), r))
+    conn.log.append(("open", loop.time(), r))
+    if r == "err":
+        raise OSError("scripted open failure")
+    if r == "hang":
+        await loop.create_future()
+    reader = asyncio.StreamReader()
+    writer = FakeWriter(len(conn.writers), conn.log)
+    conn.readers.append(reader)
+    conn.writers.append(writer)
+    return reader, writer
 
 
 # ---- frames (built from the wire layout, independent of pyplumio's encoder) -------------
